@@ -12,6 +12,7 @@ import (
 	"strconv"
 	"strings"
 	"unicode"
+	"unicode/utf16"
 	"unicode/utf8"
 )
 
@@ -59,6 +60,53 @@ func parseField(field string, line int) (any, error) {
 		return boolean, nil
 	}
 	return nil, fmt.Errorf("not a valid JSON - invalid value '%s' on line %d", field, line)
+}
+
+/*
+Decodes the content of a JSON string (without the enclosing quotes).
+All JSON escape sequences are supported, including an escaped slash and UTF-16 surrogate pairs.
+Other escape sequences are decoded as in a Go string literal.
+Parameters:
+  - raw - content of the string as written in the JSON.
+
+Returns:
+  - decoded string (empty if the content cannot be decoded).
+*/
+func unquote(raw string) string {
+	var result strings.Builder
+	for len(raw) > 0 {
+		if raw[0] != '\\' {
+			result.WriteByte(raw[0])
+			raw = raw[1:]
+			continue
+		}
+		if len(raw) > 1 && raw[1] == '/' {
+			result.WriteByte('/')
+			raw = raw[2:]
+			continue
+		}
+		char, multibyte, tail, err := strconv.UnquoteChar(raw, '"')
+		if err != nil {
+			// Surrogate pair (two consecutive \u sequences)
+			if len(raw) < 12 || raw[1] != 'u' || raw[6] != '\\' || raw[7] != 'u' {
+				return ""
+			}
+			high, err1 := strconv.ParseUint(raw[2:6], 16, 16)
+			low, err2 := strconv.ParseUint(raw[8:12], 16, 16)
+			char = utf16.DecodeRune(rune(high), rune(low))
+			if err1 != nil || err2 != nil || char == utf8.RuneError {
+				return ""
+			}
+			multibyte, tail = true, raw[12:]
+		}
+		if multibyte || char < utf8.RuneSelf {
+			result.WriteRune(char)
+		} else {
+			result.WriteByte(byte(char))
+		}
+		raw = tail
+	}
+	return result.String()
 }
 
 /*
@@ -168,7 +216,7 @@ func parseList(json string, line *int) (List, int, error) {
 				continue
 			}
 			if char == '"' {
-				str, _ := strconv.Unquote(fmt.Sprintf(`"%s"`, val.String()))
+				str := unquote(val.String())
 				list.Add(str)
 				val.Reset()
 				state = stateValAfterString
@@ -279,7 +327,7 @@ func parseObject(json string, line *int) (Object, int, error) {
 			if char != ':' {
 				return nil, 0, fmt.Errorf("not a valid JSON - expecting ':', got '%s' on line %d", string(char), *line)
 			}
-			str, _ := strconv.Unquote(fmt.Sprintf(`"%s"`, key.String()))
+			str := unquote(key.String())
 			key.Reset()
 			key.WriteString(str)
 			val.Reset()
@@ -378,7 +426,7 @@ func parseObject(json string, line *int) (Object, int, error) {
 				continue
 			}
 			if char == '"' {
-				str, _ := strconv.Unquote(fmt.Sprintf(`"%s"`, val.String()))
+				str := unquote(val.String())
 				object.Set(key.String(), str)
 				state = stateValAfterString
 				continue
